@@ -1,7 +1,7 @@
 Require Import AT.Model.Base AT.Model.DictIO AT.Spec.DictSpec AT.Proofs.DictProofs AT.Proofs.DictIters AT.Corr.Common.
 Local Open Scope Z_scope.
 
-Inductive aiter := AIdentity | ASort | ADropK0.
+Inductive aiter := AIdentity | ASort | ADropK0 | ALast.
 Inductive citer := CListK | CReversed | CDropLast.
 Inductive ncls := NAny | NNode.
 
@@ -11,6 +11,7 @@ Definition run_aiter (a : aiter) : items -> items :=
   | AIdentity => fun l => l
   | ASort => sort_items
   | ADropK0 => filter (fun kv => negb (str_eqb (fst kv) k0))
+  | ALast => fun l => match rev l with x :: _ => [x] | [] => [] end      (* list(attrs)[-1:] *)
   end.
 Definition run_citer (c : citer) : list itree -> list itree :=
   match c with CListK => fun l => l | CReversed => @rev itree | CDropLast => @removelast itree end.
